@@ -11,6 +11,7 @@ marker last.  A comparison site is a region of a function's CFG; the abstract ev
 the abstract input selects and reports which *marker* (return value, call, block) it reaches.
 Nothing of yakushima is executed: expressions from the AST are evaluated by this interpreter on abstract values.
 """
+import os
 from .facts import AnalysisBroken, CALL_KINDS, call_args, call_recv, is_call, short_loc, WRAPPERS, EXPLICIT_CASTS
 
 Y = 'yakushima::'
@@ -309,14 +310,21 @@ class AbsEval:
                 if s is not None and s != header and s not in seen:
                     seen.add(s)
                     st.append(s)
-        body = set()
-        st = [f.blocks[header].succ[0]]
-        while st:
-            x = st.pop()
-            if x in body or x == header or x is None:
-                continue
-            body.add(x)
-            st.extend(f.blocks[x].succ)
+        from .flow import natural_loops
+        nl = natural_loops(f).get(header)
+        if nl is not None:
+            # the loop's own blocks only: set-up code of an enclosing loop (which the body reaches again through the outer
+            # back edge) is still prologue
+            body = set(nl) - {header}
+        else:
+            body = set()
+            st = [f.blocks[header].succ[0]]
+            while st:
+                x = st.pop()
+                if x in body or x == header or x is None:
+                    continue
+                body.add(x)
+                st.extend(f.blocks[x].succ)
         for b in sorted(seen - body, reverse=True):
             for e in f.blocks[b].elems:
                 nd = f.node(e)
@@ -366,7 +374,9 @@ class AbsEval:
                         (nd['k'] in CALL_KINDS and nd.get('cq') == 'memcpy'):
                     try:
                         self.ev(nd)
-                    except AnalysisBroken:
+                    except AnalysisBroken as _e:
+                        if os.environ.get('YK_CMP_DEBUG'):
+                            print('E-CMP debug: %s -> %s' % (nd.get('loc'), _e))
                         if nd['k'] == 'DeclStmt':
                             # declarations outside the comparison (e.g. the slot pointer) are irrelevant:
                             # the variable becomes unknown, any later use in the comparison raises
